@@ -55,6 +55,10 @@ def sysOp (s : Sys) (tok : String) : Option (Sys × String) :=
     some (s.watch (sysPid (← actorId? a)) (sysPid (← actorId? b)), "W:ok")
   | ["U", a, b] => do
     some (s.unwatch (← actorId? a) (← actorId? b), "U:ok")
+  | ["F", x] => do
+    -- a failure with no matching supervisor directive: `notifyParent` suspends the actor
+    let x ← actorId? x
+    if s.isRunning x then some ({ s with suspended := x :: s.suspended }, "F:ok") else some (s, "F:err")
   | ["K", x] => do sysStop s "K" (← actorId? x)
   | ["P", x] => do sysStop s "P" (← actorId? x)
   | ["Q", x] => do sysStop s "Q" (← actorId? x)
